@@ -6,24 +6,25 @@
    text, independent of the walker (quadratic uniqueness test, no atom dispatch). *)
 From Coq Require Import List ZArith String Bool.
 From SMD Require Import Model.Value Model.PathElem Model.Schema Model.Walk Model.Validate Spec.RefValid
-  Proofs.OrderLaws Proofs.ValidateLaws.
+  Proofs.OrderLaws Proofs.SchemaOk Proofs.ValidateLaws Spec.Examples.
 Import ListNotations.
 
-(* a value is accepted exactly when it conforms: for every schema, type reference,
-   duplicate policy and value *)
-Theorem C13_validation_exact : forall s dup tr v, wf_schema s -> wf_value v = true ->
+(* a value is accepted exactly when it conforms: for every schema, every set R of type
+   references closed under descent whose defaults are well formed (schema_ok; the
+   references reachable from a root), every reference in R, duplicate policy and value *)
+Theorem C13_validation_exact : forall s R dup tr v, schema_ok s R -> R tr -> wf_value v = true ->
   validate s dup tr v = negb (conforms s tr dup v).
 Proof. exact validate_exact. Qed.
 Print Assumptions C13_validation_exact.
 
 (* hence type references that resolve to the same structure validate identically *)
-Theorem C13_equivalent_references : forall s dup tr1 tr2 v, wf_schema s -> wf_value v = true ->
+Theorem C13_equivalent_references : forall s R dup tr1 tr2 v, schema_ok s R -> R tr1 -> R tr2 -> wf_value v = true ->
   (forall d w, conforms s tr1 d w = conforms s tr2 d w) ->
   validate s dup tr1 v = validate s dup tr2 v.
 Proof.
-  exact (fun s dup tr1 tr2 v Hs Hv H =>
-           eq_trans (validate_exact s dup tr1 v Hs Hv)
-                    (eq_trans (f_equal negb (H dup v)) (eq_sym (validate_exact s dup tr2 v Hs Hv)))).
+  exact (fun s R dup tr1 tr2 v Hs H1 H2 Hv H =>
+           eq_trans (validate_exact s R dup tr1 v Hs H1 Hv)
+                    (eq_trans (f_equal negb (H dup v)) (eq_sym (validate_exact s R dup tr2 v Hs H2 Hv)))).
 Qed.
 Print Assumptions C13_equivalent_references.
 
@@ -34,7 +35,13 @@ Proof. exact validate_null_accepted. Qed.
 Print Assumptions C13_null_accepted.
 
 (* path elements computed from well-formed items are well formed (used by C11, C12, C14) *)
-Theorem C13_item_path_elements_wf : forall s t child e, wf_schema s -> wf_value child = true ->
+Theorem C13_item_path_elements_wf : forall s R tr a t child e, schema_ok s R -> R tr ->
+  resolve s tr = Some a -> atom_list a = Some t -> wf_value child = true ->
   list_item_to_pe s t child = Some e -> wf_pe e = true.
 Proof. exact list_item_to_pe_wf. Qed.
 Print Assumptions C13_item_path_elements_wf.
+
+(* non-vacuity: the hypotheses are met by a concrete schema and its reachable references *)
+Theorem C13_hypotheses_satisfiable : schema_ok ex_schema ex_R /\ ex_R ex_rt.
+Proof. exact (conj ex_schema_ok ex_rt_in_R). Qed.
+Print Assumptions C13_hypotheses_satisfiable.
